@@ -344,12 +344,13 @@ class C09(Property):
                          {"ev": "start", "server": 1}],
                  reqs=[[s] + r + ["path"] for s in ("0", "1") for r in probe]),
             # plain + prefixed, overlapping sub-slices, AddRoute, two prefixes in one call, every harmless option
-            dict(base, tables=[users, [["GET", "/h"], ["PUT", "/users/:id"]]], servers=[srv(native=True, chain=True, use=True, must=True)],
-                 events=[mount(0, 0, 3, []), mount(0, 0, 3, [["prefix", "/v1"], ["sse"], ["jwt"]], lo=0, hi=2),
+            dict(base, tables=[users, [["GET", "/h"], ["PUT", "/users/:id"]]],
+                 servers=[srv(native=True, chain=True, use=True, must=True, ownrouter=True, files=True, extras=True)],
+                 events=[mount(0, 0, 3, []), mount(0, 0, 3, [["prefix", "/v1"], ["sse"], ["jwt"], ["sig"]], lo=0, hi=2),
                          mount(0, 0, 3, [["priority"], ["prefix", "/v2"], ["maxbytes"]], lo=1, hi=3, single=True),
                          mount(0, 1, 2, [["prefix", "/in"], ["prefix", "/out"]], mw=True, tag=3),
-                         mount(0, 1, 2, [["prefix", "/v1"]], lo=1, hi=2), {"ev": "start", "server": 0}],
-                 reqs=[["0"] + r + ["path"] for r in probe + [["GET", "/out/in/h"], ["GET", "/in/out/h"], ["PUT", "/v1/users/3"],
+                         mount(0, 1, 2, [["jwt2"], ["prefix", "/v1"]], lo=1, hi=2), {"ev": "start", "server": 0}],
+                 reqs=[["0"] + r + ["path"] for r in probe + [["GET", "/static/x.css"], ["GET", "/out/in/h"], ["GET", "/in/out/h"], ["PUT", "/v1/users/3"],
                                                              ["GET", "/v2/users"], ["GET", "/v1/users"], ["PUT", "/out/in/users/9"]]]),
             # same table twice under the same prefix: Start must die with the duplicate
             dict(base, tables=[users], servers=[srv()],
@@ -556,7 +557,8 @@ class C09(Property):
             c = rng.random()
             servers.append({"cors": c < 0.15, "nf": 0.15 < c < 0.35 and rng.random() < 0.6, "na": 0.15 < c < 0.35 and rng.random() < 0.6,
                             "use": rng.random() < 0.3, "chain": rng.random() < 0.15, "native": rng.random() < 0.25,
-                            "must": rng.random() < 0.2})
+                            "must": rng.random() < 0.2, "ownrouter": rng.random() < 0.12, "corskind": rng.randrange(3),
+                            "files": rng.random() < 0.12, "extras": rng.random() < 0.12})
         nmount = rng.randint(1, 5)
         mounts = []
         used = {}
@@ -580,8 +582,8 @@ class C09(Property):
                 opts.append(["prefix", pre])
                 if rng.random() < 0.12:
                     opts.append(["prefix", rng.choice(["/p", "/q/", "/:p"])])
-            for o in ("timeout", "maxbytes", "priority", "sse", "jwt"):
-                if rng.random() < 0.12:
+            for o in ("timeout", "maxbytes", "priority", "sse", "jwt", "jwt2", "sig"):
+                if rng.random() < 0.1:
                     opts.append([o])
             rng.shuffle(opts)
             mounts.append({"ev": "mount", "server": s, "table": t, "lo": lo, "hi": hi, "single": rng.random() < 0.15,
@@ -636,7 +638,8 @@ class C09(Property):
             if r.get("err"):
                 raise ExecError("c09 executor: case %s: %s" % (r.get("id"), r["err"]))
         return [{"regerr": r["regerr"], "pclean": r["pclean"], "res": r["res"],
-                 "starts": r.get("starts") or [], "routes": r.get("routes") or [], "tables_after": r.get("tables_after") or []}
+                 "starts": r.get("starts") or [], "routes": r.get("routes") or [], "printed": r.get("printed") or [],
+                 "tables_after": r.get("tables_after") or []}
                 for r in res]
 
     def _henc(self, r):
@@ -690,13 +693,14 @@ class C09(Property):
         pl = lambda rs: clist(["(%s, %s)" % (cstr(m), cstr(p)) for m, p in rs])
         routes = clist([pl(rs) for rs in obs["routes"]])
         after = clist([pl(rs) for rs in obs["tables_after"]])
+        printed = clist([clist([cstr(l) for l in ls]) for ls in obs["printed"]])
         reqs = []
         for rq, r in zip(case["reqs"], obs["res"]):
             if r["k"] in ("down", "badreq"):
                 continue      # the server did not start / net/http rejected the request line: nothing was routed
             reqs.append("mkSReq %d %s %s %s %s" % (int(rq[0]), cstr(rq[1]), cstr(r["path"]), self._sresp(r),
                                                    clist([cz(t) for t in r.get("mws") or []])))
-        return "CServer (mkSCase %s %s %s %s %s %s %s)" % (clist(tables), cfgs, clist(evs), starts, routes, after, clist(reqs))
+        return "CServer (mkSCase %s %s %s %s %s %s %s %s)" % (clist(tables), cfgs, clist(evs), starts, routes, printed, after, clist(reqs))
 
     def coq_case(self, case, obs):
         if case.get("kind") == "server":
@@ -738,7 +742,9 @@ class C09(Property):
         if case.get("kind") == "server":
             fs += ["start_" + ("never" if s == -1 else REGERR.get(s, "RegOther")) for s in sorted(set(obs["starts"]))]
             for c in case["servers"]:
-                fs += ["srv_" + k for k in ("cors", "use", "nf", "na", "chain", "native", "must") if c[k]]
+                fs += ["srv_" + k for k in ("cors", "use", "nf", "na", "chain", "native", "must", "ownrouter", "files", "extras") if c.get(k)]
+                if c["cors"]:
+                    fs.append("corskind=%d" % c.get("corskind", 0))
             mounts = [e for e in case["events"] if e["ev"] == "mount"]
             fs.append("servers=%d" % len(case["servers"]))
             fs.append("mounts=%d" % len(mounts))
@@ -811,8 +817,8 @@ class C09(Property):
                     ne.append(e)
                 res.append(dict(case, tables=nt, events=ne))
         for s, c in enumerate(case["servers"]):
-            for k in ("use", "nf", "na", "chain", "native", "must"):
-                if c[k]:
+            for k in ("use", "nf", "na", "chain", "native", "must", "ownrouter", "files", "extras"):
+                if c.get(k):
                     res.append(dict(case, servers=case["servers"][:s] + [dict(c, **{k: False})] + case["servers"][s + 1:]))
         # move every Start to the end
         tail = [e for e in events if e["ev"] == "start"]
